@@ -33,6 +33,7 @@ struct St {
     probes: BTreeMap<u64, usize>,
     acked_sizes: std::collections::BTreeSet<usize>,
     lost_stat: u64,
+    black_hole_stat: u64,
     remote: Option<std::net::SocketAddr>,
 }
 
@@ -139,6 +140,12 @@ impl Oracle for MtuOracle {
                 let st = self.st.entry(inc).or_default();
                 if lost > st.lost_stat {
                     st.lost_stat = lost;
+                    st.outstanding = None;
+                }
+                // a detected black hole abandons the search together with its probe in flight
+                let bh = w.conns[inc as usize].conn.stats().path.black_holes_detected;
+                if bh > st.black_hole_stat {
+                    st.black_hole_stat = bh;
                     st.outstanding = None;
                 }
                 let remote = w.conns[inc as usize].conn.remote_address();
